@@ -40,7 +40,7 @@ fn main() {
     rep.note("assumptions", json!(["absence of deadlock is claimed only for the schedules observed (no explicit-state exploration of the monitor/bounded-channel protocol in this family)", "a stall in which threads keep consuming CPU is inconclusive, never a violation"]));
     let ctl = if cli.small { None } else { Some(Controller::install()) };
     let wd = if cli.small { None } else { Some(Watchdog::start(&cli, "C06", ctl.clone())) };
-    let n = cli.cases(960, 12000);
+    let n = cli.cases(1440, 12000);
     for idx in cli.index_range(n) {
         let mut rng = Rng::for_case(cli.seed, cli.shard, idx);
         let kind = if idx % 2 == 0 { Kind::BatchSort } else { Kind::BatchVisual };
